@@ -13,7 +13,7 @@ LEVEL = "exploration"
 RULE = (
     "Hypothesis: write cases of C01/C02 (both integrations, all entry points, boundary presets) plus dedicated cases "
     "with tables >= number of distinct strings and 'wide' cases (9..40 distinct prefixes / names / datatypes revisited, that "
-    "kind's table large enough for all, the other tables minimal); every emitted stream is audited row by row by the reference decoder: "
+    "kind's table large enough for all, the other tables minimal) and C14's namespace-declaration cases (clauses i and iii only); every emitted stream is audited row by row by the reference decoder: "
     "(i) no entry row whose value is resident in that table when the row is processed (=> with large tables each string "
     "is sent exactly once); (ii) no statement row carries a term in a slot where the input term equals the previous "
     "statement's input term in that slot (integration equality; sequence inputs) resp. resolves to the previous row's "
@@ -84,9 +84,17 @@ def wide_case(draw):
 
 @st.composite
 def case_strategy(draw):
-    k = draw(st.integers(0, 4))
+    k = draw(st.integers(0, 5))
     if k == 4:
         return draw(wide_case())
+    if k == 5:
+        # streams with namespace declarations (C14's cases, option switched on): the IRI inside a declaration row goes
+        # through the same tables and delta rules as any other
+        from props import c14
+
+        c = draw(c14.ns_case())
+        c["ns_case"] = True
+        return c
     if k == 0:
         c = draw(scen.rdflib_write_case())
     else:
@@ -97,6 +105,10 @@ def case_strategy(draw):
 
 
 def write(case):
+    if case.get("ns_case"):
+        from props import c14
+
+        return c14.write(case, c14.build_source(case), True)
     if case["integration"] == "generic":
         return scen.write_generic(case)
     return scen.write_rdflib(case)
@@ -106,6 +118,8 @@ def body(case, acc):
     try:
         data, delimited = write(case)
     except Exception as exc:  # noqa: BLE001
+        if case.get("ns_case"):
+            return None  # C14's cases include tables too small for a statement: refusals are its subject
         return Violation(f"C19:write-raises:{type(exc).__name__}", f"serialisation raised {exc!r}", case)
     if not data:
         if acc is not None:
@@ -141,6 +155,11 @@ def body(case, acc):
                                  f"previous+1 at frame {a['frame']} row {a['row']}", case)
             if i["raw_name_id"] == 0 or (i["raw_prefix_id"] == 0 and i["prefix_id"] != 0):
                 had_seq = True
+    if case.get("ns_case"):
+        if acc is not None:
+            n_decl = sum(1 for a in res.audit if a["kind"] == "namespace")
+            acc.case(case, n_decl >= 1 and had_seq, ["namespace_declaration_rows"] if n_decl else ["ns_case_without_declarations"])
+        return viol
     # hits: an IRI/datatype use without a preceding entry row in the same statement group
     n_entries = sum(1 for a in res.audit if a.get("table"))
     n_uses = sum(len(a.get("iris", ())) for a in res.audit)
